@@ -94,6 +94,12 @@ func (vc *VC) execFunc(fn *ssa.Function, args []SV, bind []SV, fi *FuncInfo, isR
 	}
 	vc.findLoops(fr)
 	order := vc.blockOrder(fr)
+	callerCond := vc.st.Cond
+	if vc.pure > 0 {
+		// conditions inside a specification function only select phi values
+		vc.st = vc.st.clone()
+		vc.st.Cond = "true"
+	}
 	entrySt := vc.st
 	for _, b := range order {
 		var st *State
@@ -147,6 +153,10 @@ func (vc *VC) execFunc(fn *ssa.Function, args []SV, bind []SV, fi *FuncInfo, isR
 		sts = append(sts, r.st)
 	}
 	merged := vc.mergeStates(sts)
+	if vc.pure > 0 {
+		// a specification function always returns: its exit condition is its entry condition
+		merged.Cond = callerCond
+	}
 	nres := len(fr.rets[0].vals)
 	out := make([]SV, nres)
 	for i := 0; i < nres; i++ {
@@ -740,8 +750,9 @@ func (vc *VC) indexAddr(fr *Frame, x *ssa.IndexAddr) SV {
 		vc.boundsCheck(idx, signed, sv.L[2], "slice")
 		tk := typeKey(t.Elem())
 		vc.eng.tkTypes[tk] = t.Elem()
-		abs := vc.def(bvSort(64), "(bvadd "+sv.L[1]+" "+idx+")")
-		return SV{L: []string{"0"}, LV: &LVal{Space: 'E', TK: tk, Typ: t.Elem(), ObjT: t.Elem(), Ref: sv.L[0], Idx: abs}}
+		abs := vc.ix(sv.L[1], idx)
+		lim := vc.def(bvSort(64), "(bvadd "+sv.L[1]+" "+sv.L[2]+")")
+		return SV{L: []string{"0"}, LV: &LVal{Space: 'E', TK: tk, Typ: t.Elem(), ObjT: t.Elem(), Ref: sv.L[0], Idx: abs, Lim: lim}}
 	case *types.Pointer:
 		at := t.Elem().Underlying().(*types.Array)
 		lv := vc.lvalOf(fr, x.X)
@@ -862,7 +873,15 @@ func (vc *VC) binop(fr *Frame, x *ssa.BinOp) SV {
 		cmp := func(f string) SV { return scalar(vc.def("Bool", "("+f+" "+A+" "+B+")")) }
 		switch op {
 		case token.ADD:
-			return bin("bvadd")
+			r := bin("bvadd")
+			if bt, ok := x.X.Type().Underlying().(*types.Basic); ok && bt.Kind() == types.Uintptr {
+				if a.LV != nil && b.LV == nil {
+					r.LV, r.POff = a.LV, addOff(a.POff, B)
+				} else if b.LV != nil && a.LV == nil {
+					r.LV, r.POff = b.LV, addOff(b.POff, A)
+				}
+			}
+			return r
 		case token.SUB:
 			return bin("bvsub")
 		case token.MUL:
@@ -994,7 +1013,13 @@ func (vc *VC) convert(fr *Frame, x *ssa.Convert) SV {
 			}
 			return SV{L: []string{vc.def(t.Sort, ext(a.L[0], f.W, t.W, f.Signed))}, LV: a.LV}
 		case f.Kind == kRef && t.Kind == kRef:
-			return a // pointer <-> unsafe.Pointer
+			// pointer <-> unsafe.Pointer
+			if pt, ok := x.Type().Underlying().(*types.Pointer); ok && a.LV != nil {
+				if !types.Identical(pt.Elem(), a.LV.Typ) || a.POff != "" {
+					return vc.viewPtr(a, pt.Elem())
+				}
+			}
+			return a
 		case f.Kind == kRef && t.Kind == kBV:
 			// unsafe.Pointer -> uintptr: abstract address
 			return vc.ptrToUintptr(a)
@@ -1027,4 +1052,45 @@ func (vc *VC) convert(fr *Frame, x *ssa.Convert) SV {
 	// []byte <-> string and friends
 	vc.fail("unsupported conversion %s -> %s", x.X.Type(), x.Type())
 	return SV{}
+}
+
+func addOff(cur, d string) string {
+	if cur == "" {
+		return d
+	}
+	return "(bvadd " + cur + " " + d + ")"
+}
+
+// viewPtr reinterprets a pointer obtained through unsafe arithmetic.  Only the
+// pattern used by z/bbloom.go is given semantics: a *uint8 into the storage of a
+// []uint64 (little-endian byte order, listed as an assumption).
+func (vc *VC) viewPtr(a SV, elem types.Type) SV {
+	lv := a.LV
+	bt, ok := elem.Underlying().(*types.Basic)
+	if ok && bt.Kind() == types.Uint8 && lv.Space == 'E' && len(lv.Arr) == 0 {
+		if ob, ok := lv.ObjT.Underlying().(*types.Basic); ok && ob.Kind() == types.Uint64 {
+			nl := *lv
+			nl.ByteView = true
+			nl.Typ = elem
+			nl.BOff = a.POff
+			if nl.BOff == "" {
+				nl.BOff = bvLitI(0, 64)
+			}
+			vc.noteAssumption("unsafe: a *uint8 derived from &[]uint64[i] addresses the bytes of the elements in little-endian order (amd64)")
+			return SV{L: []string{"0"}, LV: &nl}
+		}
+	}
+	vc.fail("unsafe pointer reinterpretation %s -> *%s is outside the modelled patterns", lv.Typ, elem)
+	return SV{}
+}
+
+// ix is the absolute element index off+i, wrapped in an uninterpreted function so
+// that quantifier triggers over slice elements match syntactically.
+func (vc *VC) ix(off, i string) string {
+	if !vc.declared["ix"] {
+		vc.declared["ix"] = true
+		vc.decls = append(vc.decls, "(declare-fun ix ((_ BitVec 64) (_ BitVec 64)) (_ BitVec 64))",
+			"(assert (forall ((a (_ BitVec 64)) (b (_ BitVec 64))) (! (= (ix a b) (bvadd a b)) :pattern ((ix a b)))))")
+	}
+	return "(ix " + off + " " + i + ")"
 }
